@@ -1099,20 +1099,20 @@ FINDINGS = [
     {"status": "known", "key": "identifier-shadowed-by-constant",
      "what": "a free variable whose name is a constant of the current theory prints as that name and parses back as the constant "
              "(one namespace in the concrete syntax; no small fix)"},
-    {"status": "fixed", "key": "roundtrip:operand-priority", "commit": "fixes/C07-3.patch",
+    {"status": "fixed", "key": "roundtrip:operand-priority", "commit": "b85b923",
      "what": "printer priorities in syntax/operator.py disagreed with the grammar ladder: `ys @ (x # xs)` printed `ys @ x # xs`, `(~A) Mem S` printed "
              "`~A Mem S`, `(A > B) Mem S` printed `A > B Mem S`, `INT (UN S)` printed `INT UN S`"},
-    {"status": "fixed", "key": "roundtrip:numeral-atom", "commit": "fixes/C07-1.patch",
+    {"status": "fixed", "key": "roundtrip:numeral-atom", "commit": "9fd5848",
      "what": "`f (of_nat 1)` printed `f of_nat 1`, `x * (1 / 0)` printed `x * 1 / 0` (terms that merely evaluate to a natural number were treated as atoms)"},
-    {"status": "fixed", "key": "roundtrip:extra-arguments", "commit": "fixes/C07-2.patch",
+    {"status": "fixed", "key": "roundtrip:extra-arguments", "commit": "cfdb887",
      "what": "a prefix operator or binder constant applied to more than one argument lost arguments: `uminus f x` printed `-x`, `The P (%k. t)` printed `THE k. t`"},
-    {"status": "fixed", "key": "roundtrip:annotation-on-operator", "commit": "fixes/C07-4.patch",
+    {"status": "fixed", "key": "roundtrip:annotation-on-operator", "commit": "c122402",
      "what": "infer_printed_type chose the head constant of an operator application for the type annotation, which the printer cannot show: "
              "`-(netlimit (The trivial_limit))` printed without any annotation and did not parse"},
-    {"status": "fixed", "key": "roundtrip:bound-name-is-constant", "commit": "fixes/C07-5.patch",
+    {"status": "fixed", "key": "roundtrip:bound-name-is-constant", "commit": "a1e980b",
      "what": "the variant name chosen for a bound variable could be a constant of the theory (theory hoare: `P (%P. q P)` printed `P (%P1. q P1)` where P1 is a constant)"},
-    {"status": "fixed", "key": "memo-history:nested-binder-names", "commit": "fixes/C07-6.patch",
+    {"status": "fixed", "key": "memo-history:nested-binder-names", "commit": "b9d00cb",
      "what": "the printer memo key contained only the names of outermost binders: after printing `!x. ?y. R x y`, the alpha-variant `!x. ?z. R x z` printed as the former"},
-    {"status": "fixed", "key": "roundtrip:char-string-literal", "commit": "fixes/C07-7.patch",
+    {"status": "fixed", "key": "roundtrip:char-string-literal", "commit": "31716be",
      "what": "characters/strings outside the grammar's literal syntax (`Char 32`, the empty string, \"a b\") were printed as quoted literals that do not parse"},
 ]
